@@ -18,6 +18,8 @@ CLAIMS = {
          "list/set/multiset diff contracts are 'bounded'; CLI exit status is covered under C14.", "8 C05"),
  "C01": ("other", "Tier A obligations (every patch implementation refines the strict hunk semantics; patchAll; path cloning; scalar and object diff validity) are proved for all inputs; the composition diff-then-patch is stated as the contract of the wrapper verifDiff (a.Diff(b) applied to a copy of a succeeds and Equals b, for the in-memory diff) and evaluated on all document pairs of a bounded universe x option sets in the property's domain.",
          "the inductive composition through the LCS walk is not proved (bounded only).", "8 C01"),
+ "C15": ("other", "Frame obligations (no in-place write to storage reachable from a parameter unless listed in modifies/consumes) are generated for every store, map update, copy, delete and in-place external (slices.Reverse, sort) and discharged for every implementation of Equals, Diff/diff, hashCode, raw, Json, Yaml and for Render, RenderPatch, RenderMerge: on any call sequence the inputs are unchanged, which is the history part of the property turned into a per-call frame. Determinism (independence of map iteration order) and 'a diff still patches after being rendered' are evaluated by the wrappers verifPure / verifReadMergeDeterministic on bounded universes.",
+         "determinism is bounded only (repeat-and-compare), except Equals whose result is proved equal to a function of its inputs; provenance labels are per root and per struct field.", "8 C15"),
 }
 
 def main():
